@@ -123,3 +123,8 @@ package icmp
 //@   entry row vpn: [call gopacket.NewDecodingLayerParser(layers.LayerTypeIPv4, bind_ds) as (pr)]
 //@                     when vpnMode && len(ds) == 3 && isptr(ds[0], layers.Ethernet) && asptr(ds[0], layers.Ethernet) == addr(ret.rcvEth) && isptr(ds[1], layers.IPv4) && asptr(ds[1], layers.IPv4) == addr(ret.rcvIP)
 //@                       && isptr(ds[2], layers.ICMPv4) && asptr(ds[2], layers.ICMPv4) == addr(ret.rcvICMP) && ret.parser == pr && pr.IgnoreUnsupported && !pr.IgnorePanic && ret.results == results && ret.scanType == scanType -> exit
+//@ func NewScanMethod
+//@   props C06 C03
+//@   observe NewPacketProcessor
+//@   entry row build: [call NewPacketProcessor("icmp", results, vpnMode) as (pp)] when ret.PacketSource == psrc && isptr(ret.Processor, PacketProcessor) && asptr(ret.Processor, PacketProcessor) == pp
+//@                       && isptr(ret.Resulter, PacketProcessor) && asptr(ret.Resulter, PacketProcessor) == pp -> exit
